@@ -60,7 +60,7 @@ def A(tag, *items):
 
 
 def Rl(*alts, memo=False):
-    return {"memo": memo, "leader": False, "alts": list(alts)}
+    return {"memo": memo, "leader": False, "lr": False, "alts": list(alts)}
 
 
 # ---------------------------------------------------------------------------------------------
@@ -170,6 +170,7 @@ def set_leaders(g) -> bool:
             edges[i + 1] |= first_rules(g, a["items"])
     for r in g:
         r["leader"] = False
+        r["lr"] = False
 
     def reach_from(src, banned):
         seen, todo = set(), [src]
@@ -189,6 +190,8 @@ def set_leaders(g) -> bool:
         if i not in scc:
             continue
         done |= scc
+        for c in scc:
+            g[c - 1]["lr"] = True
         cands = []
         for c in sorted(scc):
             # removing c must break every cycle inside the SCC
@@ -278,7 +281,7 @@ def strip(g):
         return {"k": it["k"], "t": it["t"], "r": it["r"], "x": [item(x) for x in it["x"]], "s": [item(x) for x in it["s"]],
                 "alts": [{"items": [item(y) for y in a["items"]], "tag": a["tag"]} for a in it["alts"]]}
 
-    rules = [{"memo": r["memo"], "leader": r["leader"], "alts": [{"items": [item(y) for y in a["items"]], "tag": a["tag"]} for a in r["alts"]]} for r in g]
+    rules = [{"memo": r["memo"], "leader": r["leader"], "lr": r.get("lr", False), "alts": [{"items": [item(y) for y in a["items"]], "tag": a["tag"]} for a in r["alts"]]} for r in g]
     return {"rules": rules, "names": {"n"} if uses_kw(g) else {"n", "k"}}
 
 
